@@ -53,7 +53,7 @@ func (QueryEventScenario) GenCase(r *rand.Rand, prop string) interface{} {
 		p := &c.Pats[r.IntN(len(c.Pats))]
 		id++
 		rname := instantiate(r, c.FullPattern(p), true)
-		qscript := pick(r, "y,model", "coll", "y,chg", "add,rm", "notfound", "invquery", "err", "", "y", "p:reserr", "p:err", "p:str", "p:int", "timeout,model", "model,model")
+		qscript := pick(r, "y,model", "coll", "y,chg", "add,rm", "notfound", "invquery", "err", "errnomsg", "", "y", "p:reserr", "p:err", "p:str", "p:int", "timeout,model", "model,model")
 		op := Op{ID: id, Kind: "req", Subject: "call." + rname + ".set", Script: append(yields(r, 1), "qe:"+qscript, "r:default")}
 		peer.Ops = append(peer.Ops, op)
 		// query requests at this event
@@ -194,6 +194,8 @@ func qreqExpect(payload string, script []string, typ int) (kind, code string) {
 			return "error", "system.invalidQuery"
 		case "err":
 			return "error", "test.qerr"
+		case "errnomsg":
+			return "error", "test.qnomsg"
 		case "p:reserr":
 			return "error", "test.qpanic"
 		case "p:err", "p:str", "p:int":
